@@ -83,28 +83,29 @@ theorem ObjOk.leaf (bytes : List Nat) (n : Nat) : ObjOk ⟨bytes, []⟩ n :=
 /-! ## `packEach` -/
 
 theorem packEach_spec {α : Type} (build : α → List Obj → R (Obj × List Obj)) (P : α → Nat → List Obj → Prop)
-    (hb : ∀ a pk o pk1, build a pk = .ok (o, pk1) → WF pk →
-      WF pk1 ∧ Ext pk pk1 ∧ ObjOk o pk1.length ∧
-      ∀ pk2 i, Ext pk1 pk2 → WF pk2 → pk2[i]? = some o → P a i pk2)
     (hmono : ∀ a i pk pk', P a i pk → Ext pk pk' → WF pk' → P a i pk') :
     ∀ (as : List α) (pk : List Obj) (ts : List Nat) (pk' : List Obj),
+      (∀ a ∈ as, ∀ pk o pk1, build a pk = .ok (o, pk1) → WF pk →
+        WF pk1 ∧ Ext pk pk1 ∧ ObjOk o pk1.length ∧
+        ∀ pk2 i, Ext pk1 pk2 → WF pk2 → pk2[i]? = some o → P a i pk2) →
       packEach build as pk = .ok (ts, pk') → WF pk →
       WF pk' ∧ Ext pk pk' ∧ ts.length = as.length ∧
       ∀ k (hk : k < as.length) (hk' : k < ts.length), ts[k] < pk'.length ∧ P as[k] ts[k] pk'
-  | [], pk, ts, pk', h, wf => by
+  | [], pk, ts, pk', _, h, wf => by
     simp only [packEach, pure, Except.pure] at h
     cases h
     exact ⟨wf, Ext.refl _, rfl, fun k hk => absurd hk (by simp)⟩
-  | a :: as, pk, ts, pk', h, wf => by
+  | a :: as, pk, ts, pk', hb, h, wf => by
     simp only [packEach] at h
     obtain ⟨⟨o, pk1⟩, hbuild, h⟩ := bind_ok h
     obtain ⟨⟨i, pk2⟩, hpack, h⟩ := bind_ok h
     obtain ⟨⟨ts', pk3⟩, hrest, h⟩ := bind_ok h
     simp only [pure, Except.pure] at h
     cases h
-    obtain ⟨wf1, e1, ok1, hP⟩ := hb a pk o pk1 hbuild wf
+    obtain ⟨wf1, e1, ok1, hP⟩ := hb a (by simp) pk o pk1 hbuild wf
     obtain ⟨wf2, e2, hget⟩ := packChild_spec pk1 o i pk2 hpack wf1 ok1
-    obtain ⟨wf3, e3, hlen, hall⟩ := packEach_spec build P hb hmono as pk2 ts' pk' hrest wf2
+    obtain ⟨wf3, e3, hlen, hall⟩ := packEach_spec build P hmono as pk2 ts' pk'
+      (fun a' ha' => hb a' (by simp [ha'])) hrest wf2
     refine ⟨wf3, e1.trans (e2.trans e3), by simp [hlen], ?_⟩
     intro k hk hk'
     cases k with
@@ -515,7 +516,11 @@ theorem subsetPaint_spec (p : PlanIn) (b : Array Nat) :
     obtain ⟨wfk, ek, hlen, hall⟩ := packEach_spec (kidBuild (subsetPaint b p fuel) b off)
       (fun pos i pk => ∃ c, resolveOff b 3 off pos = some c ∧ paintOk b c = true ∧ PaintAt p b fuel c i pk)
       (by
-        intro pos pk0 o0 pk01 hb0' wf0
+        intro pos i pk0 pk0' ⟨c, h1, h2, h3⟩ e w
+        exact ⟨c, h1, h2, h3.mono e w⟩)
+      (kidPositions fmt) pk ts pkk
+      (by
+        intro pos _ pk0 o0 pk01 hb0' wf0
         unfold kidBuild at hb0'
         split at hb0'
         · cases hb0'
@@ -525,10 +530,7 @@ theorem subsetPaint_spec (p : PlanIn) (b : Array Nat) :
         rename_i hpo
         obtain ⟨w1, e1, ok1, hP⟩ := IH c pk0 o0 pk01 hb0' wf0
         refine ⟨w1, e1, ok1, fun pk2 i e2 w2 hg => ⟨c, hc, by simpa using hpo, hP pk2 i e2 w2 hg⟩⟩)
-      (by
-        intro pos i pk0 pk0' ⟨c, h1, h2, h3⟩ e w
-        exact ⟨c, h1, h2, h3.mono e w⟩)
-      (kidPositions fmt) pk ts pkk heach wf
+      heach wf
     -- the blob
     obtain ⟨wfb, eb, hbnone, hbsome⟩ := packBlob_spec b p off (blobOf fmt) pkk blinks pk1 hblob wfk
     refine ⟨wfb, ek.trans eb, ?_, ?_⟩
@@ -650,5 +652,58 @@ theorem subsetPaint_spec (p : PlanIn) (b : Array Nat) :
             · exact hi
             · rw [List.getElem?_eq_none (by omega)] at hgetb; cases hgetb
           simp only [hla, e2.getElem? hib, hgetb, expectBlob, hobj, toOpt_ok, Option.map_some]
+
+
+/-! ## link lists of the record arrays -/
+
+theorem linksAt_length (first stride width : Nat) (ts : List Nat) :
+    (linksAt first stride width ts).length = ts.length := by simp [linksAt]
+
+theorem linksAt_getElem (first stride width : Nat) (ts : List Nat) (k : Nat) (hk : k < ts.length) :
+    (linksAt first stride width ts)[k]'(by rw [linksAt_length]; exact hk) = ⟨first + k * stride, width, ts[k]⟩ := by
+  simp [linksAt]
+
+theorem mem_linksAt {first stride width : Nat} {ts : List Nat} {l : Link} (h : l ∈ linksAt first stride width ts) :
+    ∃ k, ∃ (hk : k < ts.length), l = ⟨first + k * stride, width, ts[k]⟩ := by
+  obtain ⟨k, hk, e⟩ := List.mem_iff_getElem.mp h
+  have hk' : k < ts.length := by rw [linksAt_length] at hk; exact hk
+  exact ⟨k, hk', by rw [← e, linksAt_getElem _ _ _ _ _ hk']⟩
+
+theorem sorted_linksAt (first stride width : Nat) (ts : List Nat) (hw : width ≤ stride) :
+    SortedLinks (linksAt first stride width ts) := by
+  unfold SortedLinks
+  rw [List.pairwise_iff_getElem]
+  intro i j hi hj hij
+  rw [linksAt_length] at hi hj
+  rw [linksAt_getElem _ _ _ _ _ hi, linksAt_getElem _ _ _ _ _ hj]
+  left
+  simp only
+  have : (i + 1) * stride ≤ j * stride := Nat.mul_le_mul_right _ hij
+  rw [Nat.succ_mul] at this
+  omega
+
+/-- the link of record `k` of an array object -/
+theorem linkAt_linksAt (first stride width : Nat) (ts : List Nat) (hs : 0 < stride) (k : Nat) (hk : k < ts.length) :
+    linkAt (linksAt first stride width ts) (first + k * stride) = some ts[k] := by
+  have hsplit : linksAt first stride width ts =
+      (linksAt first stride width ts).take k ++ (⟨first + k * stride, width, ts[k]⟩ ::
+        (linksAt first stride width ts).drop (k + 1)) := by
+    have hk' : k < (linksAt first stride width ts).length := by rw [linksAt_length]; exact hk
+    conv => lhs; rw [← List.take_append_drop k (linksAt first stride width ts)]
+    congr 1
+    rw [List.drop_eq_getElem_cons hk', linksAt_getElem _ _ _ _ _ hk]
+  rw [hsplit, linkAt_append_of_none _ _ _ (by
+    intro l hl
+    obtain ⟨j, hj, e⟩ := List.mem_iff_getElem.mp hl
+    have hj' : j < k := by simp at hj; omega
+    rw [List.getElem_take] at e
+    rw [linksAt_getElem _ _ _ _ _ (by omega)] at e
+    subst e
+    simp only
+    intro heq
+    have : j * stride < k * stride := Nat.mul_lt_mul_of_pos_right hj' hs
+    omega)]
+  exact linkAt_cons_same _ _ _ _
+
 
 end FontVerif.SubsetColr
